@@ -34,7 +34,7 @@ def run(ctx: Ctx, clauses=None, salt=None) -> int:
         tlc.model_check(ctx, "AllocMC", f"Alloc_mc_{sfx}", vacuity_ignore=("Emit",))
     cases = gen_cases(ctx, ctx.tier, salt or SALT)
     decide(ctx, cases, clauses)
-    ctx.extra["embeddings"] = ALL
+    ctx.extra["embeddings"] = ALL + ["micro"]
     ctx.extra["clauses"] = sorted(clauses)
     ctx.assumptions += [
         "float dimension sampled by 8 embeddings (incl. a non-zero origin)",
